@@ -287,11 +287,11 @@ func Wrap[T ~string](str T, token string) T {
 
 // Unwrap a string with the specified token.
 func Unwrap[T ~string](str T, token string) T {
-	startToken := strings.Index(string(str), token)
-	endToken := strings.LastIndex(string(str), token)
-
-	if startToken == 0 && endToken <= len(str)-1 {
-		str = str[len(token):endToken]
+	// The string is wrapped only if it starts and ends with the token
+	// and the two occurrences do not overlap.
+	if len(str) >= 2*len(token) &&
+		strings.HasPrefix(string(str), token) && strings.HasSuffix(string(str), token) {
+		str = str[len(token) : len(str)-len(token)]
 	}
 
 	return str
